@@ -103,7 +103,32 @@ def absSigmaOp (args : List String) : Option String :=
     if req.isEmpty then failure
     pure (fList (fList fF) (tab2 n req.length (Taurex.AbsorptionGrid.absSigma gs req)))) args
 
+/-- `c01.scaledsigma nlayers nwn laws[mol][wn] mixes[mol][layer]` → sigma_xsec[nlayers][nwn] of `RayleighContribution`
+    (`AbsorptionGrid.scaledSigma`) -/
+def scaledSigmaOp (args : List String) : Option String :=
+  run (do
+    let n ← nat
+    let nwn ← nat
+    let ls ← listOf (listOf flt)
+    let ms ← listOf (listOf flt)
+    if ls.length ≠ ms.length then failure
+    pure (fList (fList fF) (tab2 n nwn (Taurex.AbsorptionGrid.scaledSigma
+      ((ls.zip ms).map fun (x, m) => (fn1 x, fn1 m)))))) args
+
+/-- `c01.ciasigma nlayers nwn xsecs[pair][layer][wn] mix1[pair][layer] mix2[pair][layer]` → sigma_xsec[nlayers][nwn] of
+    `CIAContribution` (`AbsorptionGrid.ciaSigma`) -/
+def ciaSigmaOp (args : List String) : Option String :=
+  run (do
+    let n ← nat
+    let nwn ← nat
+    let xs ← listOf (listOf (listOf flt))
+    let m1 ← listOf (listOf flt)
+    let m2 ← listOf (listOf flt)
+    if xs.length ≠ m1.length ∨ xs.length ≠ m2.length then failure
+    pure (fList (fList fF) (tab2 n nwn (Taurex.AbsorptionGrid.ciaSigma
+      ((xs.zip (m1.zip m2)).map fun (x, a, b) => (fn2 x, fn1 a, fn1 b)))))) args
+
 def ops : List Op := [("c01.paths", pathsOp), ("c01.paths3d", paths3dOp), ("c01.spectrum", spectrumOp),
-  ("c01.abssigma", absSigmaOp)]
+  ("c01.abssigma", absSigmaOp), ("c01.scaledsigma", scaledSigmaOp), ("c01.ciasigma", ciaSigmaOp)]
 
 end Taurex.Ops.C01
